@@ -393,5 +393,5 @@ def hyp_cases(draw, tier):
 
 PARTS = [
     Part("exhaustive", run_exhaustive, enum=enum_cases),
-    Part("random-options", run_random, strategy=lambda tier: hyp_cases(tier), n={"quick": 600, "thorough": 60000}),
+    Part("random-options", run_random, strategy=lambda tier: hyp_cases(tier), n={"quick": 2000, "thorough": 60000}),
 ]
